@@ -70,7 +70,9 @@ Next ==
      /\ r[1].ovl => PrintT(<<"OVL", Rec[i].run>>)
      /\ LET churn == "churn" \in DOMAIN Rec[i].cfg /\ r[1].heap # None IN
         /\ hb' = IF churn /\ runs = Warm THEN r[1].heap ELSE hb
-        /\ (churn /\ runs > Warm /\ r[1].heap > hb + HeapTol) =>
+        \* (the events of a run are kept in memory until it is over: a run of more than 300 events is not measured
+        \* itself - the runs after it are)
+        /\ (churn /\ runs > Warm /\ r[2] - i <= 300 /\ r[1].heap > hb + HeapTol) =>
               PrintT(<<"VIOL", ToJson([run |-> Rec[i].run, p |-> "C08", w |-> "heap-keeps-growing", k |-> "",
                                        d |-> ToString(<<"bytes at quiescence after warm-up", hb, "now", r[1].heap, "runs", runs>>)])>>)
      /\ i' = r[2]
